@@ -310,6 +310,41 @@ fn handle(kind: &str, f: &[String]) -> String {
                 ),
             }
         }
+        ("rootattrs", 6) => {
+            // attrs, bbox ("none" or four bit patterns), border, scale bits, local id, svg style ("-" = none)
+            let bbx = if f[1] == "none" {
+                None
+            } else {
+                let v: Vec<u32> = f[1].split(',').map(|x| x.parse().unwrap()).collect();
+                Some((
+                    f32::from_bits(v[0]),
+                    f32::from_bits(v[1]),
+                    f32::from_bits(v[2]),
+                    f32::from_bits(v[3]),
+                ))
+            };
+            let lid = if f[4] == "-" { None } else { Some(unhex_s(&f[4])) };
+            let sty = if f[5] == "-" { None } else { Some(unhex_s(&f[5])) };
+            match verif::root_attrs(
+                &parse_attrs(&f[0]),
+                bbx,
+                f[2].parse::<u16>().unwrap(),
+                f32::from_bits(f[3].parse::<u32>().unwrap()),
+                lid.as_deref(),
+                sty.as_deref(),
+            ) {
+                Ok(s) => format!("OK\t{}", hex(s.as_bytes())),
+                Err(k) => format!("ERR\t{k}"),
+            }
+        }
+        ("docextent", 2) => {
+            let cfg = parse_cfg(&f[0]);
+            match verif::doc_extent(&unhex_s(&f[1]), &cfg) {
+                Ok(Some(b)) => format!("OK\t{}", bbc(b)),
+                Ok(None) => "OK\tnone".to_owned(),
+                Err(k) => format!("ERR\t{}", k.join(",")),
+            }
+        }
         ("docbytes", 2) => {
             // raw bytes through transform_stream (may be non-UTF-8)
             let cfg = parse_cfg(&f[0]);
